@@ -32,7 +32,9 @@ def _decide(name: str, a, b, ctx: Tuple[str, str], max_candidates: int = 8) -> D
     tot = 0.0
     for _round in range(max_candidates + 1):
         def extra(s, ex=tuple(excluded)):
-            return z3.And([s != z3.StringVal(e) for e in ex]) if ex else z3.BoolVal(True)
+            # query strings are sequences of Unicode scalar values: no lone surrogates
+            scalar = z3.InRe(s, z3.Star(R.union(R.rng(0, 0xD7FF), R.rng(0xE000, R.UNI_MAX))))
+            return z3.And([scalar] + [s != z3.StringVal(e) for e in ex])
 
         try:
             res, w, dt = R.included(a, b, extra=extra)
